@@ -11,7 +11,7 @@ ob("chunk_num_injective_q", "C04", entry="h_chunk_num_injective", mode="bounded"
    bound="rank<=2, dim_length<=8, chunk_length 1..8, nt_size in {1,2,4,8}",
    defines=["MAXR=2", "MAXE=8"], unwind=3, cex_unwind=3, timeout=300, **HC)
 
-ob("chunk_roundtrip_r3", "C04", entry="h_chunk_roundtrip", mode="bounded",
+ob("chunk_roundtrip_r3", "C04", entry="h_chunk_roundtrip", mode="bounded", tier="thorough",
    bound="rank<=3, dim_length<=5, chunk_length 1..5, nt_size in {1,2,4,8}",
    defines=["MAXR=3", "MAXE=5"], unwind=4, cex_unwind=4, timeout=300, **HC)
 ob("chunk_roundtrip_t", "C04", entry="h_chunk_roundtrip", mode="bounded", tier="thorough",
@@ -64,11 +64,11 @@ mcache_sched("c1p3", 1, 3, 81, "thorough")
 ob("mcache_close", "C04", entry="h_mcache_protocol",
    bound="2 pages, cache size 1, schedules 100..117, then mcache_close",
    defines=["MAXCACHE=1", "NPG=2", "NSTEPS=3", "SCHED_LO=100", "SCHED_HI=118", "WITH_CLOSE"], **MC)
-ob("mcache_evict_fail", "C04", entry="h_mcache_evict_fail",
+ob("mcache_evict_fail", ["C04", "C16"], entry="h_mcache_evict_fail",
    bound="2 pages, cache size 1, pgout fails once during eviction", defines=["MAXCACHE=1", "NPG=2"], **MC)
-for k in (2,):
-    ob(f"mcache_open_oom{k}", "C04", entry="h_mcache_open_oom",
-       bound=f"3 pages, allocation number {k} inside mcache_open fails", defines=["MAXCACHE=2", "NPG=3", f"FAIL_AT={k}"], **MC)
+# mcache_open_oom<k> (allocation number k inside mcache_open fails) is NOT registered: no property quantifies over allocation
+# failure (A-ALLOC).  The harness h_mcache_open_oom stays in the unit; it shows mcache_open's error cleanup walking mp->lhqh[]
+# after free(mp) (mcache.c:246-254) -- a side observation in DESIGN.md section 10.5, not a finding.
 
 prop("C04",
      residual="equality of reads across layouts (a relation between two complete stacks); HMCPread/HMCPwrite loops, "
